@@ -5,14 +5,16 @@ Import ListNotations.
 From GM Require Import Base.Topic Model.SubTrie Model.SubSpec Proofs.SubTrieP.
 
 (* a publish on topic t finds, for every share group, exactly the current members whose
-   filter matches, each once: this is the candidate list flush() picks one member from *)
+   filter matches under MQTT 4.7 (incl. the '$' rule [MQTT-4.7.2-1], which the store now
+   applies to the shared trie too), each once: this is the candidate list flush() picks one
+   member from *)
 Theorem C11_members_by_topic :
   forall (ops : list op) (t : str) (c : cid),
     wf_ops ops = true -> t <> [] -> no_wild_levels (split t) = true ->
     exists l, db_iterate (q_sh_topic t c) (db_run ops) = IOk (some_ents l) /\ NoDup l /\
       forall c' s, In (c', s) l <->
         (s_share s <> [] /\ sp_get (c', s_share s, s_filter s) (spec_run ops) = Some s /\
-         lm (split t) (split (s_filter s)) = true /\ want_client c c').
+         topic_match t (s_filter s) = true /\ want_client c c').
 Proof. exact sh_lookup_topic_exact. Qed.
 Print Assumptions C11_members_by_topic.
 
@@ -58,3 +60,14 @@ Example C11_nonvacuous :
   wf_ops ops = true /\
   db_iterate (q_sh_topic f []) (db_run ops) = IOk (some_ents [(c2, mk_sh g f 2)]).
 Proof. vm_compute. split; reflexivity. Qed.
+
+(* the '$' rule on the shared trie: "$share/g/#" is not a candidate for "$SYS/x", "$share/g/$SYS/#" is;
+   for "x" it is the other way round *)
+Example C11_dollar_rule_nonvacuous :
+  let c1 := [99; 49]%N in let c2 := [99; 50]%N in let g := [103]%N in
+  let hash := [35]%N in let sys_hash := [36; 83; 89; 83; 47; 35]%N in let sys_x := [36; 83; 89; 83; 47; 120]%N in
+  let ops := [OSub c1 (mk_sh g hash 0); OSub c2 (mk_sh g sys_hash 1)] in
+  wf_ops ops = true /\
+  db_iterate (q_sh_topic sys_x []) (db_run ops) = IOk (some_ents [(c2, mk_sh g sys_hash 1)]) /\
+  db_iterate (q_sh_topic [120]%N []) (db_run ops) = IOk (some_ents [(c1, mk_sh g hash 0)]).
+Proof. vm_compute. repeat split. Qed.
